@@ -1332,7 +1332,7 @@ func (g *Gen) lookup(x *ssa.Lookup) {
 	dom := fmt.Sprintf("(select (select %s %s) %s)", g.sv(md, "(Array Int (Array "+ks+" Bool))"), m, k)
 	val := fmt.Sprintf("(select (select %s %s) %s)", g.sv(mv, "(Array Int (Array "+ks+" "+vs+"))"), m, k)
 	in := and(fmt.Sprintf("(not (= %s 0))", m), dom)
-	if strings.HasPrefix(vs, "S_") || vs == "" {
+	if vs == "" {
 		g.define(x, "")
 		return
 	}
@@ -1357,9 +1357,6 @@ func (g *Gen) mapUpdate(x *ssa.MapUpdate) {
 	ds := "(Array Int (Array " + ks + " Bool))"
 	d := g.sv(md, ds)
 	g.setSV(md, ds, fmt.Sprintf("(store %s %s (store (select %s %s) %s true))", d, m, d, m, k))
-	if strings.HasPrefix(vs, "S_") {
-		return
-	}
 	vsrt := "(Array Int (Array " + ks + " " + vs + "))"
 	vv := g.sv(mv, vsrt)
 	g.setSV(mv, vsrt, fmt.Sprintf("(store %s %s (store (select %s %s) %s %s))", vv, m, vv, m, k, v))
@@ -1411,7 +1408,7 @@ func (g *Gen) nextInstr(x *ssa.Next) {
 	}
 	g.assume(imp(okT.S, fmt.Sprintf("(and (not (= %s 0)) (select %s %s) (not (select %s %s)))", m, dom, kT.S, seen, kT.S)))
 	g.assume(imp(not(okT.S), fmt.Sprintf("(forall ((k %s)) (=> (select %s k) (select %s k)))", ks, dom, seen)))
-	if !strings.HasPrefix(vs, "S_") && vT.Sort == vs {
+	if vT.Sort == vs {
 		g.assume(imp(okT.S, fmt.Sprintf("(= %s (select (select %s %s) %s))", vT.S, g.sv(mv, "(Array Int (Array "+ks+" "+vs+"))"), m, kT.S)))
 		g.assume(g.typeInv(vT.S, mt.Elem()))
 	}
